@@ -184,9 +184,7 @@ fn classify(class: &str, src: &str, opts: &FormatOptions) -> Option<String> {
     if stray_comma {
         return Some("stray-comma-ends-paren-free-call".into());
     }
-    if range_of_range {
-        return Some("range-operand-starts-with-a-dot".into());
-    }
+    let _ = range_of_range; // printed with a separating space since koto fix (was a known finding)
     if needs_line_breaks(src, opts) {
         return Some(format!("line-breaking:{class}"));
     }
